@@ -932,13 +932,13 @@ IB_richcompare(IB* self, PyObject* other, int op)
 {
     PyObject* othername;
     PyObject* othermod;
+    PyObject* selfname;
+    PyObject* selfmod;
     PyObject* oresult;
     PyTypeObject* interface_base_class;
-    IB* otherib;
     int result;
 
-    otherib = NULL;
-    oresult = othername = othermod = NULL;
+    oresult = othername = othermod = selfname = selfmod = NULL;
 
     if (OBJECT(self) == other) {
         switch (op) {
@@ -970,11 +970,12 @@ IB_richcompare(IB* self, PyObject* other, int op)
     }
 
     if (PyObject_TypeCheck(other, interface_base_class)) {
-        // This branch borrows references. No need to clean
-        // up if otherib is not null.
-        otherib = (IB*)other;
-        othername = otherib->__name__;
-        othermod = otherib->__module__;
+        // Comparing the names can run Python code (str subclasses),
+        // and names and modules are writable: own what we compare.
+        othername = ((IB*)other)->__name__;
+        othermod = ((IB*)other)->__module__;
+        Py_XINCREF(othername);
+        Py_XINCREF(othermod);
     } else {
         othername = PyObject_GetAttr(other, str__name__);
         if (othername) {
@@ -999,14 +1000,17 @@ IB_richcompare(IB* self, PyObject* other, int op)
     // tuple comparison is decided by the first non-equal element; when
     // all elements are equal (which identical objects always are, even
     // unorderable ones like None) the tuples are equal.
-    result = PyObject_RichCompareBool(self->__name__, othername, Py_EQ);
+    selfname = self->__name__;
+    selfmod = self->__module__;
+    Py_XINCREF(selfname);
+    Py_XINCREF(selfmod);
+    result = PyObject_RichCompareBool(selfname, othername, Py_EQ);
     if (result == 0) {
-        result = PyObject_RichCompareBool(self->__name__, othername, op);
+        result = PyObject_RichCompareBool(selfname, othername, op);
     } else if (result == 1) {
-        result = PyObject_RichCompareBool(self->__module__, othermod, Py_EQ);
+        result = PyObject_RichCompareBool(selfmod, othermod, Py_EQ);
         if (result == 0) {
-            result =
-              PyObject_RichCompareBool(self->__module__, othermod, op);
+            result = PyObject_RichCompareBool(selfmod, othermod, op);
         } else if (result == 1) {
             result = (op == Py_EQ || op == Py_LE || op == Py_GE);
         }
@@ -1022,10 +1026,10 @@ IB_richcompare(IB* self, PyObject* other, int op)
 cleanup:
     Py_XINCREF(oresult);
 
-    if (!otherib) {
-        Py_XDECREF(othername);
-        Py_XDECREF(othermod);
-    }
+    Py_XDECREF(othername);
+    Py_XDECREF(othermod);
+    Py_XDECREF(selfname);
+    Py_XDECREF(selfmod);
     return oresult;
 }
 
